@@ -54,7 +54,7 @@ CLAIMED.update({
             "abstract interpretation + canonical linear forms + provenance qualifiers of indices"),
     "C07": ("§4 C07", "decides for p-entailment, System Z, System W (rc2, z3), lex (rc2, z3): EXT.inf-hard, EXT.vacuity (guards compared over "
                       "satisfiability patterns), EXT.start-total (integer reasoning over len(P) ≥ 1), EXT.only-infinity, EXT.pinf, and the "
-                      "recursion obligations on the generic head (Z.*), W.* / LEX.* of the recursions below the infinity layer, Z3MCS.*, CNF.*, MCS.*, MANAGER.init (the mode flag reaches the state). Assumes: semantic adequacy of the extended definitions",
+                      "recursion obligations on the generic head (Z.*), W.* / LEX.* of the recursions below the infinity layer, Z3MCS.*, CNF.*, MCS.*, MANAGER.init (the mode flag reaches the state), SHORTCUT.guard in every mode, STATE.solver-per-query (nothing asserted for one query stays for the next). Assumes: semantic adequacy of the extended definitions",
             "abstract interpretation + guard equivalence over satisfiability patterns + small integer reasoning"),
     "C09": ("§4 C09", "decides three clauses only: D1 SHORTCUT.guard/dominance, D2 the per-operator decision SAT(A∧¬B)∧UNSAT(A∧B) ⇒ False "
                       "(Z.decision, W.subset-test rows with V=∅, LEX.cardinality, LEX.strict-shortcuts), D3 CNF.roles/literals/constants and Z.start / W.start / LEX.start (direct inference needs every layer reached). Not "
@@ -63,14 +63,14 @@ CLAIMED.update({
     "C11": ("§4 C11", "decides: BACKEND.dispatch (evaluated on the concrete names rc2, rc2-g3, rc2-g4, rc2-cd, rc2-m22, rc2-mgh), MANAGER.init, OBJ.identity (conditionals compare by identity), DISPATCH, W.siblings / LEX.siblings / EXT.siblings (both implementations "
                       "discharge one obligation table on a common abstract form), Z3.translate, Z3MCS.*, MCS.*. Assumes: the solvers agree",
             "sibling cross-check on a common abstract form (abstract interpretation of both implementations)"),
-    "C12": ("§4 C12", "decides: KEY.no-reserved, KEY.no-positional, NONINTERF, OBJ.identity, and what listing order can reach: *.balance, LEX.tie-constraints, W.decision, C.selffulfilling, C.relations, CNF.constants. Not decided: invariance under reordering, atom renaming and "
+    "C12": ("§4 C12", "decides: KEY.no-reserved, KEY.no-positional, NONINTERF, OBJ.identity, and what listing order can reach: *.balance, LEX.tie-constraints, W.decision, C.selffulfilling, C.relations, CNF.constants, MCS.minimal (clause counts differ between equivalent formulas), shared parameter defaults never changed in place, PART.partition evaluated with key 0 among the keys. Not decided: invariance under reordering, atom renaming and "
                       "equivalent rewriting (semantic)",
             "provenance qualifiers of keys and indices carried by the abstract values + non-interference audit of decisions and answers"),
-    "C13": ("§4 C13", "decides: STATE.lifetime, STATE.solver-per-query, STATE.init-preserves, ROWS.key, ROWS.columns, ROWS.order (rows in submission order), TIMEOUT.per-query, CNF.roles on a state with unknown earlier content (no presentation-keyed memo), PAR.key (workers, stores and the returned mapping read as values), PAR.join, QUERYSLOT.def-before-use (also on "
+    "C13": ("§4 C13", "decides: STATE.lifetime, STATE.solver-per-query, STATE.init-preserves, ROWS.key, ROWS.columns, ROWS.order (rows in submission order), TIMEOUT.per-query, CNF.roles on a state with unknown earlier content (no presentation-keyed memo), PAR.key (workers, stores and the returned mapping read as values), PAR.join (workers and the manager process), QUERYSLOT.def-before-use (also on "
                       "the state an earlier query left behind), CACHE.readonly, PREPROC.once. Not decided: scheduling of processes, fork semantics",
             "attribute-lifetime audit over the class hierarchy + abstract interpretation of the wrappers (key provenance, process typestate)"),
     "C14": ("§4 C14", "decides: CHECK.three-way, TIMEOUT.flow, TIMEOUT.row (query rows, worker rows, rows after a preprocessing timeout), "
-                      "TIMEOUT.guarded-raise (an observed expiry leaves the enumeration by TimeoutError only), STATE.solver-per-query, "
+                      "TIMEOUT.guarded-raise (an observed expiry leaves the enumeration by TimeoutError only), CHECK.three-way on every check() of a budgeted optimizer in the operators, exception classes compared by qualified name, nothing of an expired query kept in state, STATE.solver-per-query, "
                       "TIMEOUT.per-query (a deadline per query), nothing but the operator's own error escapes a wrapper, the preprocessing flag of a row is "
                       "the one after this call's preprocessing, converting handlers read only keys every state has, no rows without evaluation unless preprocessing expired, answers in front of the recursion after an observed expiry (W.start / LEX.start), ROWS.columns, PREPROC.once. Not decided: when an expiry "
                       "happens, z3 honouring its timeout",
@@ -79,19 +79,19 @@ CLAIMED.update({
 
 CLAIMED.update({
     "C16": ("§4 C16", "decides: ZRANK.recursion (both copies), WORLD.literals, ZRANK.cache, ZRANK.pure, FACT.shape (both builders), partition "
-                      "mode, ZRANK.refuse, DIAG.flags (the diagnostics carried by the refusal) and the arguments of the diagnostics call, a rank only from the descent through the layers (partition mode symbolic), FACTORY.forward, the caller's base left untouched, RANK.min and ACCEPT.decision (acceptance through formula ranks), PART.* on `consistency`. Not decided: equality with the operator's answers, solver",
+                      "mode, every entry into the rank recursion (start index, start scope), ZRANK.refuse, DIAG.flags (the diagnostics carried by the refusal) and the arguments of the diagnostics call, a rank only from the descent through the layers (partition mode symbolic), FACTORY.forward, the caller's base left untouched, RANK.min and ACCEPT.decision (acceptance through formula ranks), PART.* on `consistency`. Not decided: equality with the operator's answers, solver",
             "abstract interpretation (solver scopes, decision table, cache typestate) + sibling cross-check"),
     "C17": ("§4 C17", "decides four clauses: CREP.rank, KEY.no-positional between impacts / η names / conditionals, CHECK.three-way and the "
                       "objectives at the constructor, C.relations and C.empty-minimum of the solved system, RANK.min / ACCEPT.decision, and the shape of "
                       "the front enumeration (solver scope, objectives, CHECK.three-way, MODEL.extract on solve_pareto_front), FRONT.wiring of "
-                      "c_inference_pareto_front, FACTORY.forward, KEY.no-reserved of the query names; FRONT.enumeration: the enumeration loop run "
+                      "c_inference_pareto_front, FACTORY.forward, KEY.no-reserved of the query names, the query side of c-inference (C.query-edges, answer polarity); FRONT.enumeration: the enumeration loop run "
                       "iteration by iteration (bounded) against a stated model of z3's Pareto mode returns for every behaviour of the optimiser - with a single "
                       "objective z3 repeats the optimum and never answers unsat - and returns exactly the reported points. Not decided: "
-                      "Pareto minimality of what z3 reports, relation to c-inference",
+                      "Pareto minimality of what z3 reports",
             "abstract interpretation + provenance qualifiers of indices + bounded unrolling against an external model of the optimiser"),
     "C18": ("§4 C18", "decides: RANK.min, ACCEPT.decision, MARG.bits, COND.filter, TPO.order (all three by evaluation on concrete worlds with symbolic ranks / free test outcomes / all order types of the ranks), WORLD.literals, FACTORY.forward. Assumes: solver, BitVector",
             "abstract interpretation (accumulator update tables, decision tables, key construction)"),
-    "C20": ("§4 C20", "decides three clauses: SAVE.restore (all exits incl. failing open/dump), STATE.pickled (__getstate__/__setstate__ keep every attribute with its full content), IMPACTS.keys (export followed by import of what it wrote; size check before replacement), IMPACTS.factory (both init_with_impacts*), IMPACTS.accept (no legitimate vector "
+    "C20": ("§4 C20", "decides three clauses: SAVE.restore (all exits incl. failing open/dump), STATE.pickled (__getstate__/__setstate__ keep every attribute with its full content; an attribute load_ocf leaves as None is not dereferenced by anything a loaded object can run), IMPACTS.keys (export followed by import of what it wrote; size check before replacement), IMPACTS.factory (both init_with_impacts*), IMPACTS.accept (no legitimate vector "
                       "rejected on reload), FORMAT.agree (tables over suffix "
                       "classes x fmt, loader fallbacks followed through exceptional paths). Not decided: pickling across interpreters, equality "
                       "of continued lazy computation",
@@ -104,7 +104,7 @@ CLAIMED.update({
                       "LEX.skip (incl. non-greedy delimited tokens), LEX.generated (serialized ATN of the generated lexer decoded and compared with "
                       "the grammar: literals, characters, wildcards, greediness, skip actions), VISIT.meaning, VISIT.order (list rules keep "
                       "file order, lose nothing: the visitors evaluated on concrete parse trees of one to four atoms / one to three conditionals), "
-                      "VISIT.keys, REJECT.listeners, REJECT.eof (lookahead 1), REJECT.signature (evaluated on 14 atom lists). Not decided: ANTLR runtime",
+                      "VISIT.keys, REJECT.listeners, REJECT.eof (lookahead 1), REJECT.signature (evaluated on 14 atom lists), REJECT.input (every returning path of a wrapper has run the entry rule on the caller's text), PARSE.fresh (no memoised parse result is handed out twice). Not decided: ANTLR runtime",
             "grammar reader + abstract interpretation of the visitors + who-may-call / typestate of the parse entry points"),
 })
 
